@@ -1,9 +1,9 @@
 SPECIFICATION Spec
 CONSTANTS
-  Titles = {"absent", "empty", "short", "long"}
+  Titles = {"absent", "empty", "short", "long", "nulend", "nul"}
   Years = {"absent", "text2008", "bin2008", "textempty", "textabc", "bin3", "bin0", "textutf", "textbad", "bin1", "bin5", "textmax", "textover", "text65536", "text007", "binmax", "bindigits", "int0", "int4", "binzero"}
   Posters = {"absent", "empty", "one", "big"}
-  Summaries = {"absent", "short", "utf8"}
+  Summaries = {"absent", "short", "utf8", "nulend"}
   Unknowns = {"none", "before", "after", "between", "tiny", "named", "kids"}
   Shapes = {"mdir", "mdirqt", "mdta", "zero", "noilst", "noilstqt", "nometa", "noudta"}
   Hdrs = {"small", "data", "item", "all"}
